@@ -31,7 +31,7 @@ for d in sorted(glob.glob(os.path.join(S, "C*", "[mbcdefghijklnopqr]*"))):
         "breaks": am.get("summary", ""),
         "site": am.get("site", ""),
         "needs_to_manifest": am.get("needs_to_manifest", ""),
-        "origin": "written by an independent sub-agent that saw only the property text and its own worktree of /repo" + (" (second round: also told which sites the first round had used)" if m.startswith("b") else " (third round: one agent per source area, given all 20 property texts and the sites used before)" if m.startswith("c") else " (fourth round: C08/C09/C10/C13 only, asked for state kept outside LMDB: caches, statics, files)" if m.startswith("d") else " (fifth round: one agent per source area, asked for changes that need a rare conjunction of conditions - one magic size, id, dimension or history shape - to manifest)" if m.startswith("e") else " (sixth round: one agent per property, given only that property's text and the sites used before, asked for rare-conjunction triggers)" if m.startswith("f") else " (seventh round: as the sixth, for the other twelve properties)" if m.startswith("g") else " (eighth round: one agent per source area, asked for changes in the style of a performance pull request - caches, memos, batching, pruning, parallelised loops - correct on the common path)" if m.startswith("h") else " (ninth round: one agent per pair of features, asked for changes that show only when both features are in play, with per-feature controls in the demonstration)" if m.startswith("i") else " (tenth round: one agent per library family the crate builds on - roaring, heed/LMDB, rayon/atomics, float and SIMD intrinsics, error handling, integer arithmetic - asked for changes that turn on a documented subtlety of that library)" if m.startswith("j") else " (eleventh round: agents asked to violate a property in a way the most natural randomized check of it would not see - another observer, another moment, another API call)" if m.startswith("k") else " (twelfth round: as the eleventh, for the remaining property groups and the most fertile ones again)" if m.startswith("l") else " (thirteenth round: one agent per family of history shapes - emptying and refilling, metric-change sequences, several indexes in one transaction, build options changing over many builds, overwrite patterns, transaction patterns)" if m.startswith("n") else " (fourteenth and last round: one agent per source area, any style, asked to read closely for what is left)" if m.startswith("o") else " (fifteenth round: four agents, five properties each, asked to split every statement into clauses and to break the clause a tester would most likely forget)" if m.startswith("p") else " (sixteenth round: five agents, one per range of source files, asked to read line by line for what fifteen rounds had left)" if m.startswith("q") else " (seventeenth round, continuation session: sixteen agents, one property each and nothing else, asked for changes that need a multi-step history, an edge value, a particular option combination, an abort/cancel point or two cooperating sites to manifest)" if m.startswith("r") else ""),
+        "origin": "written by an independent sub-agent that saw only the property text and its own worktree of /repo" + (" (second round: also told which sites the first round had used)" if m.startswith("b") else " (third round: one agent per source area, given all 20 property texts and the sites used before)" if m.startswith("c") else " (fourth round: C08/C09/C10/C13 only, asked for state kept outside LMDB: caches, statics, files)" if m.startswith("d") else " (fifth round: one agent per source area, asked for changes that need a rare conjunction of conditions - one magic size, id, dimension or history shape - to manifest)" if m.startswith("e") else " (sixth round: one agent per property, given only that property's text and the sites used before, asked for rare-conjunction triggers)" if m.startswith("f") else " (seventh round: as the sixth, for the other twelve properties)" if m.startswith("g") else " (eighth round: one agent per source area, asked for changes in the style of a performance pull request - caches, memos, batching, pruning, parallelised loops - correct on the common path)" if m.startswith("h") else " (ninth round: one agent per pair of features, asked for changes that show only when both features are in play, with per-feature controls in the demonstration)" if m.startswith("i") else " (tenth round: one agent per library family the crate builds on - roaring, heed/LMDB, rayon/atomics, float and SIMD intrinsics, error handling, integer arithmetic - asked for changes that turn on a documented subtlety of that library)" if m.startswith("j") else " (eleventh round: agents asked to violate a property in a way the most natural randomized check of it would not see - another observer, another moment, another API call)" if m.startswith("k") else " (twelfth round: as the eleventh, for the remaining property groups and the most fertile ones again)" if m.startswith("l") else " (thirteenth round: one agent per family of history shapes - emptying and refilling, metric-change sequences, several indexes in one transaction, build options changing over many builds, overwrite patterns, transaction patterns)" if m.startswith("n") else " (fourteenth and last round: one agent per source area, any style, asked to read closely for what is left)" if m.startswith("o") else " (fifteenth round: four agents, five properties each, asked to split every statement into clauses and to break the clause a tester would most likely forget)" if m.startswith("p") else " (sixteenth round: five agents, one per range of source files, asked to read line by line for what fifteen rounds had left)" if m.startswith("q") else " (seventeenth round, continuation session: twenty agents, one property each and nothing else, asked for changes that need a multi-step history, an edge value, a particular option combination, an abort/cancel point or two cooperating sites to manifest)" if m.startswith("r") else ""),
         "what_i_ran": {
             "worktree": "scratch git worktree of /repo HEAD under /tmp (removed afterwards)",
             "demo_without_patch": ("demo.rs appended to the file named in agent_meta.json (demo_target); cargo test --offline --lib <each demo test> -> exit %s" if m.startswith("r") else "cargo test --offline --test seed_demo (demo.rs copied to tests/; C13/m3: unit-test module wired by one line)  -> exit %s") % v.get("demo_without_patch_exit"),
